@@ -15,7 +15,7 @@ Record lparams := {
 
 Inductive pexpr :=
 | PName (s : str)
-| PConst (r : str) (kind : N)                                  (* repr(value), atomic; kind 1: an int, bool or float; 2: a complex; 0: anything else *)
+| PConst (r : str) (kind : N)                                  (* ascii(value) -- repr with the characters outside ASCII escaped --, atomic; kind 1: an int, bool or float; 2: a complex; 0: anything else *)
 | PAttr (e : pexpr) (a : str)
 | PCall (f : pexpr) (args : list pexpr) (kw : list (option str * pexpr))    (* None: double-star mapping *)
 | PBin (op : str) (l r : pexpr)                               (* op = the ast class name: Add, Pow, ... *)
